@@ -13,7 +13,7 @@ from .interp import (Ctx, Frame, PyRaise, _Return, _Break, _Continue, PathEnd, I
 from .values import (S, VOpt, VQty, VTime, VDelta, VEnum, SEnum, VRec, VRef, HObj, HList, HDict,
                      HSet, SymSeq, SymSet, SymMap, FuncRef, ClassRef, ModRef, ExtRef,
                      BoundBuiltin, Opaque, Unsupported, fresh_name, zreal, float_literal, GhostSeq,
-                     KeySetVal, HKeySet, HOptDict)
+                     KeySetVal, HKeySet, HOptDict, HSymList)
 
 
 class SpecFn:
@@ -137,6 +137,8 @@ class Interp:
                 return keysets.enumeration(self.engine, self, h.val).length > 0
             if isinstance(h, HOptDict):
                 return optdict.truth(self, h)
+            if isinstance(h, HSymList):
+                return h.seq.length > 0
             ci = self.engine.class_info(h.cls)
             if ci and ("__bool__" in ci.methods or "__len__" in ci.methods):
                 m = "__bool__" if "__bool__" in ci.methods else "__len__"
@@ -807,6 +809,13 @@ class Interp:
         if isinstance(base, ModRef):
             return self.module_attr(base.module, attr)
         if isinstance(base, ExtRef):
+            if base.name == "math" and attr in ("nan", "inf", "pi", "e"):
+                import math as _m
+                if self.ctx.mode == "ieee":
+                    return S(z3.FPVal(getattr(_m, attr), FP), "fp")
+                if attr in ("nan", "inf"):
+                    raise Unsupported(f"math.{attr} in real mode")
+                return float_literal(getattr(_m, attr))
             return ExtRef(base.name + "." + attr)
         r = models.getattr_model(self, base, attr)
         if r is not NotImplemented:
@@ -860,7 +869,8 @@ class Interp:
         raise PyRaise("AttributeError", f"{cls}.{attr}")
 
     def getitem(self, base, idx):
-        base = self.unwrap(base, "subscripted object")
+        base = self.as_symbolic_iterable(self.unwrap(base, "subscripted object")) \
+            if isinstance(base, VRef) and isinstance(self.ctx.deref(base), HSymList) else self.unwrap(base, "subscripted object")
         r = models.getitem_model(self, base, idx)
         if r is not NotImplemented:
             return r
@@ -1599,6 +1609,8 @@ class Interp:
             if isinstance(h, HKeySet):
                 from . import keysets
                 return keysets.enumeration(self.engine, self, h.val)
+            if isinstance(h, HSymList):
+                return h.seq
         return v
 
     def s_With(self, node, fr):
